@@ -39,14 +39,21 @@ def moswarn_names(wlist):
     return [w.category.__name__ for w in wlist if issubclass(w.category, exc.MosRoMgrWarning)]
 
 
-def add(ro, m):
-    """`ro + m` with warnings recorded; returns (result_or_None, status, warn categories)"""
+def add(ro, m, direct=False):
+    """`ro + m` with warnings recorded; returns (result_or_None, status, warn categories).  direct: the message's documented
+    merge(ro) method is called instead of the operator (only on a running order that is not completed: the refusal of
+    further messages is the operator's)"""
     with warnings.catch_warnings(record=True) as w:
         warnings.simplefilter("always")
         err = None
         res = None
         try:
-            res = ro + m
+            if direct and not completed_of(ro):
+                str(ro)                    # (a serialisation taken earlier must not be remembered)
+                res = m.merge(ro)
+                res = ro if res is None else res
+            else:
+                res = ro + m
         except Exception as e:  # noqa: BLE001 - the point is to see every exception type
             err = e
     return res, classify_status(err), moswarn_names(w), err
@@ -55,8 +62,8 @@ def add(ro, m):
 def shares(a, b):
     """some Element object is reachable from both trees (spec/MosAlias.tla: NoSharedNodes, on the real heap)"""
     try:
-        ids = {id(e) for e in a.xml.iter()} | {id(e.attrib) for e in a.xml.iter() if e.attrib}
-        return any(id(e) in ids or (e.attrib and id(e.attrib) in ids) for e in b.xml.iter())
+        ids = {id(e) for e in a.xml.iter()} | {id(e.attrib) for e in a.xml.iter()}
+        return any(id(e) in ids or id(e.attrib) in ids for e in b.xml.iter())
     except Exception:  # noqa: BLE001
         return False
 
@@ -100,6 +107,7 @@ def parse_msg(text):
 def run_case(case_id, pre_abs, msg_abs, seed, keep_xml=False):
     """one spec transition against the real code -> event dict for the judge"""
     g = Gamma("%s|%s" % (seed, case_id))
+    g.str_decl = True
     # the same case, with its ids written in one of several styles (prefix-related, markup characters, case-only
     # differences, inner blanks, long): a bijection on ids, so the specification's verdict is unaffected
     from .render import ID_STYLES, id_style_map, restyle
@@ -143,7 +151,7 @@ def run_case(case_id, pre_abs, msg_abs, seed, keep_xml=False):
         return parse_event(case_id, "msg")
     before = str(ro)
     msg_text0 = str(m)
-    res, status, warns, err = add(ro, m)
+    res, status, warns, err = add(ro, m, direct=g.rng("direct").random() < 0.2)
     # (a message classified as another class than its shape says is C08's business: the step is judged as it went)
     target = res if (status == "ok" and isinstance(res, RunningOrder)) else ro
     if status == "ok" and not isinstance(res, RunningOrder):
